@@ -163,10 +163,14 @@ func checkGffReader(c *Ctx, parse *ssa.Function) {
 		if st == unknown {
 			// an alternative that does not come from this column at all: the column's value is overridden on some path
 			own := fld(k)
+			loopComputed := got.contains(func(x *Term) bool { return x.Op == "rec" || (x.Op == "phi" && x.Cyc) })
 			for _, l := range phiLeaves(normText(got)) {
 				// evidence of an override: a constant, a value that does not come from this line, or the text of
 				// ANOTHER column; a value obtained from the line in some other way (a regexp with groups, a cursor over the columns) is a shape not read here
 				other := l.Op == "const" || !strings.Contains(l.String(), lineN) // a constant, or something not taken from this line at all (a header value)
+				if l.Op == "const" && loopComputed {
+					other = false // the start value of a loop that works the number out digit by digit
+				}
 				for j := 0; j < 9; j++ {
 					if j != k && strings.Contains(l.String(), fld(j)) {
 						other = true
